@@ -86,6 +86,22 @@ def degenerate_arc(rnd):
     return [pre, arc]
 
 
+def exact_semicircle(rnd):
+    """R-form arc whose radius is exactly half the chord (as exactly as a float can say it): the centre lies on the chord and the
+    square root of the centre computation is taken of (nearly) zero."""
+    import math
+    sx, sy = rnd.randint(-20, 40), rnd.randint(-20, 40)
+    dx, dy = rnd.randint(-30, 30), rnd.randint(-30, 30)
+    if dx == 0 and dy == 0:
+        dx = 3
+    if rnd.random() < 0.3:
+        dx, dy = dx / 4.0, dy / 8.0
+    r = math.hypot(dx, dy) / 2.0
+    r = rnd.choice([r, r, r, math.nextafter(r, 0.0), math.nextafter(r, math.inf), -r])
+    return ["G1 X%s Y%s" % (fmt(sx, 4), fmt(sy, 4)),
+            "%s X%s Y%s R%s" % (rnd.choice(["G2", "G3"]), fmt(sx + dx, 4), fmt(sy + dy, 4), fmt(r, 17))]
+
+
 def wrap_line(rnd, cmd, k):
     """A file line around a command: line number, checksum, comment, blanks, EOL."""
     s = cmd
@@ -136,12 +152,17 @@ class C09(Monitor):
         cmds = ["G28"]
         for _ in range(n):
             if rnd.random() < 0.06:
-                cmds += (["G90"] if rnd.random() < 0.7 else []) + degenerate_arc(rnd)
+                cmds += (["G90"] if rnd.random() < 0.7 else []) + (degenerate_arc(rnd) if rnd.random() < 0.6 else exact_semicircle(rnd))
             else:
                 cmds.append(fuzz_command(rnd))
         regs = gen_regions(rnd, rnd.choice([0, 1, 2, 3]))
         if rnd.random() < 0.3:
             regs.append(["rect", -100.0, -100.0, 100.0, 100.0, "big"])     # most moves are excluded
+        if rnd.random() < 0.06:
+            # a region of astronomic size (the API does not bound the numbers): membership tests must not overflow
+            m = rnd.choice([1e155, 1e200, 1e300])
+            regs.append(rnd.choice([["circ", 0.0, 0.0, m, "huge"], ["circ", m, 0.0, m / 2, "far"], ["rect", -m, -m, m, m, "hugebox"],
+                                    ["circ", -3 * m, m, m, "far2"]]))
         ext = dict(DEFAULT_EXT)
         ext.update({"M900": rnd.choice(["merge", "first", "last", "exclude"])})
         settings = dict(g90e=rnd.random() < 0.5, ext=ext, debug=rnd.random() < 0.33,
